@@ -63,7 +63,7 @@ def tape_size(blocks):
     return n, t
 
 
-HAZARDS = ('uneven-used', 'zp-tail', 'zp-lead', 'zp-silent', 'zp', 'uneven')      # most specific first
+HAZARDS = ('zp-tail', 'zp-lead', 'zp-silent', 'zp', 'uneven-used', 'uneven')      # most specific first
 
 
 def hazards(blocks):
@@ -101,6 +101,18 @@ def hazards(blocks):
         if h in hz:
             return h
     return 'plain'
+
+
+def expressible(blocks):
+    """False for tapes no file format can express and whose meaning the documents do not fix: sample data (zero-length
+    pulses, a stated level: PZX only) followed by a block that does not state its level (TZX only)"""
+    samples = False
+    for b in blocks:
+        if samples and b['pol'] == NOPOL:
+            return False
+        if sample_mode(b) and b['pol'] != NOPOL:
+            samples = True
+    return True
 
 
 def real_blocks(blocks):
@@ -630,6 +642,26 @@ def tapinfo_edges(path, start=1, stop=0, skip=(), max_edges=12000):
     return obs
 
 
+def signal_blocks(fmt, parsed):
+    """projected parser output -> the abstract blocks that get played (python mirror of TapeFormats!SignalBlocks, used only to
+    name the input class of a file in violation keys)"""
+    if fmt == 'tzx':
+        out, loop, reps = [], None, 0
+        for p in parsed:
+            if p['id'] == 0x24:
+                loop, reps = [], p['reps']
+            if loop is None:
+                out.append(p)
+            else:
+                loop.append(p)
+            if p['id'] == 0x25 and loop is not None:
+                out.extend(loop * reps)
+                loop = None
+        parsed = out
+    return [blk(p['tm']['pulses'], p['data'] if p['hasdata'] else (), p['tm']['zero'], p['tm']['one'], p['tm']['used'], p['tm']['tail'],
+                p['tm']['pause'], p['tm']['pol'], p['tm']['dr']) for p in parsed if p['tm']['has'] and not p['tm']['err']]
+
+
 NOSIG = dict(has=0, exc=0, first=0, runs=[], ranges=[], n=0)
 
 
@@ -643,6 +675,7 @@ def file_obs(fmt, path, start=1, stop=0, skip=(), sig=True, writer='', wdata=(),
              info=info['lines'], infoexc=info['exc'], writer=writer, wdata=[list(d) for d in wdata], wexc=0)
     if p['exc']:
         o['err'] = p['err']
+    o['hz'] = hazards(signal_blocks(fmt, p['blocks']))
     o['sig'] = tapinfo_edges(path, start, stop, skip, max_edges) if sig and not p['exc'] else dict(NOSIG)
     return o
 
@@ -685,7 +718,7 @@ def written(fmt, path, datas, sig=True, max_edges=12000):
     try:
         (t.write_tap if fmt == 'tap' else t.write_pzx)(path, [list(d) for d in datas])
     except Exception as e:  # noqa: BLE001 - a writer that fails is an observation
-        return dict(fmt=fmt, raw=[], start=1, stop=0, skip=[], exc=0, parsed=[], warn=0, info=[], infoexc=0, writer=fmt,
+        return dict(fmt=fmt, raw=[], start=1, stop=0, skip=[], exc=0, parsed=[], warn=0, info=[], infoexc=0, writer=fmt, hz='plain',
                     wdata=[list(d) for d in datas], wexc=1, err='%s: %s' % (type(e).__name__, e), sig=dict(NOSIG))
     return file_obs(fmt, path, writer=fmt, wdata=datas, sig=sig, max_edges=max_edges)
 
@@ -824,7 +857,7 @@ def family_pzx(r, wd, tag, opts=False, zero_pulses=True):
     while True:
         blocks = gen_tape(r, 'pzx', r.random() < 0.5, 4, zero_pulses)
         blocks = [b for b in blocks if not (b['pulses'] and b['pol'] == 0 and b['pulses'][0][0] % 2 == 1 and b['pulses'][0][1] == 0)]
-        if blocks and hazards(blocks) in ('plain', 'zp', 'uneven'):
+        if blocks and hazards(blocks) in ('plain', 'zp', 'uneven', 'uneven-used'):
             break
     out = [pzx_header(1, 0, [b'Title'] if r.random() < 0.3 else ())]
     for b in blocks:
@@ -882,6 +915,8 @@ def replay_worker(args):
     out = []
     for tp in tapes:
         blocks = [alphabet[i] for i in tp]
+        if not expressible(blocks):
+            continue
         hz = hazards(blocks)
         for fe in fes:
             for gp in gpols:
